@@ -2,6 +2,7 @@ package handlers
 
 import (
 	"context"
+	"io"
 	"net/http"
 	"net/url"
 	"sort"
@@ -22,6 +23,7 @@ type zzProxy struct {
 	endpoints []*domain.Endpoint
 	path      string
 	body      []byte
+	bodySeen  []byte
 	header    http.Header
 	fail      error
 	writes    func(w http.ResponseWriter)
@@ -35,6 +37,9 @@ func (p *zzProxy) ProxyRequestToEndpoints(ctx context.Context, w http.ResponseWr
 	p.endpoints = endpoints
 	p.path = r.URL.Path
 	p.header = r.Header
+	if r.Body != nil {
+		p.bodySeen, _ = io.ReadAll(r.Body)
+	}
 	if p.writes != nil {
 		p.writes(w)
 	}
